@@ -191,7 +191,7 @@ def gen_cases(tier, seed):
                 (recs_nested(), ["x.y", "z,x.y", "x.y,z"]), (recs_tuple(), [0, "0", "1,0", "0,1"])]
     for dom, attrs in rec_doms:
         pool = list(seqs(dom, L4 if isinstance(dom[0], dict) and "y" in dom[0] else L3))
-        for xs in (pool if not quick else sample(pool, 60)):
+        for xs in sample(pool, 60 if quick else 1555):
             for attr in attrs:
                 for rev in (False, True):
                     for cs in (False, True):
@@ -208,7 +208,7 @@ def gen_cases(tier, seed):
             add(case("min", xs, a, "xs|min(case_sensitive=cs)", kw={"case_sensitive": "cs"}))
             add(case("max", xs, a, "xs|max(cs)", pos=["cs"]))
     for dom, attrs in rec_doms:
-        for xs in sample(seqs(dom, L4), 40 if quick else 1200):
+        for xs in sample(seqs(dom, L4), 40 if quick else 1000):
             for attr in [a for a in attrs if not (isinstance(a, str) and "," in a)]:
                 for cs in (False, True):
                     a = {"cs": cs, "attr": attr}
@@ -362,7 +362,7 @@ def gen_cases(tier, seed):
                   ("x", "ne", "A"), ("x", "in", ["a", "b"]), ("x", "lower", None), ("y", "lt", 1),
                   ("x", "defined", None), ("q", "defined", None), ("q", "undefined", None), ("q", "", None)]
     for dom in (recs_dict(), recs_obj()):
-        for xs in sample(seqs(dom, L4), 40 if quick else 1555):
+        for xs in sample(seqs(dom, L4), 40 if quick else 800):
             for attr, name, arg in attr_tests:
                 for f in ("selectattr", "rejectattr"):
                     a = {"attr": attr, "arg": arg}
@@ -378,7 +378,7 @@ def gen_cases(tier, seed):
         for f in ("selectattr", "rejectattr"):
             add(case(f, xs, {"attr": "x.y", "arg": "a"}, f"xs|{f}(attr, name, arg)", pos=["attr", "name", "arg"],
                      name="eq", lazy=True, names=["name"]))
-    full_every = 6 if quick else 2
+    full_every = 6 if quick else 3
     for i, c in enumerate(cases):
         c["pick"] = None if i % full_every == 0 else i
     return cases
@@ -535,7 +535,7 @@ def run(ck):
             cases = [c for c in cases if c["f"] in only]
             ck.exhaustive = False
         recs, nruns = observe_all(cases)
-        rejected = fu.tlc_validate(ck, "SeqFiltersTrace", recs, batch=7000, parallel=4)
+        rejected = fu.tlc_validate(ck, "SeqFiltersTrace", recs, batch=7000, parallel=4 if ck.tier == "quick" else 6)
         done, extra = mc.result()
     for r, label in done:
         ck.add_tlc(r, label)
